@@ -244,3 +244,99 @@ Proof.
   rewrite S3. replace (trim_space B) with add by (symmetry; apply (trim_img false n add Hadd)).
   destruct (t_elems tag_UnstructuredAddenda) as [|e1 [|e2 [|e3 r']]]; cbn in Hne; try lia. reflexivity.
 Qed.
+
+(* ---------------- {1120} ---------------- *)
+Definition omad_canonical (v : tagval) : bool :=
+  match tv_elems v with
+  | [a; b; c; d; e; f] =>
+      marker_ok (tv_marker v) && clean 8 a && clean 8 b && (length c =? 6) && forallb okchar c &&
+      clean 4 d && clean 4 e && clean 4 f
+  | _ => false
+  end.
+
+Lemma parse_alpha_pad x w : length x <= w -> small w -> parse_alpha_field x w = pad w x.
+Proof.
+  intros Hl Hs. unfold parse_alpha_field, pad.
+  replace (w <? length x) with false by (symmetry; apply Nat.ltb_ge; exact Hl).
+  rewrite valid_size_small by (unfold small in *; lia).
+  reflexivity.
+Qed.
+
+Theorem omad_round_trip v variable : omad_canonical v = true ->
+  t_parse tag_OutputMessageAccountabilityData =
+    [PGuard CLt 14; PTag false; PSetLen 6; PFixed 0 8 "OutputCycleDate"; PFixed 1 8 "OutputDestinationID";
+     PNeed 6 "OutputSequenceNumber"; PDyn 2 6 false; PFixed 3 4 "OutputDate"; PFixed 4 4 "OutputTime";
+     PFixed 5 4 "OutputFRBApplicationIdentification"; PVerifyLen] ->
+  t_format tag_OutputMessageAccountabilityData =
+    [FForceFixed; FTag; FRightAlpha 0 8; FRightAlpha 1 8; FNumeric 2 6; FRightAlpha 3 4; FRightAlpha 4 4; FRightAlpha 5 4; FStripIfVariable] ->
+  length (t_elems tag_OutputMessageAccountabilityData) = 6 ->
+  exists txt, format_tag tag_OutputMessageAccountabilityData variable v = Some txt /\ parse_tag tag_OutputMessageAccountabilityData txt = POk v.
+Proof.
+  intros Hc Hp Hf Hne. unfold omad_canonical in Hc.
+  destruct v as [mk els]. cbn [tv_elems tv_marker] in Hc.
+  destruct els as [|a [|b [|c [|d [|e [|f [|x r]]]]]]]; try discriminate Hc.
+  apply andb_true_iff in Hc as [Hc Hcf]. apply andb_true_iff in Hc as [Hc Hce]. apply andb_true_iff in Hc as [Hc Hcd].
+  apply andb_true_iff in Hc as [Hc Hoc]. apply andb_true_iff in Hc as [Hc Hlc]. apply andb_true_iff in Hc as [Hc Hcb].
+  apply andb_true_iff in Hc as [Hmk Hca]. apply Nat.eqb_eq in Hlc.
+  destruct (clean_parts 8 a Hca) as (La & Oa & _). destruct (clean_parts 8 b Hcb) as (Lb & Ob & _).
+  destruct (clean_parts 4 d Hcd) as (Ld & Od & _). destruct (clean_parts 4 e Hce) as (Le & Oe & _). destruct (clean_parts 4 f Hcf) as (Lf & Of & _).
+  unfold marker_ok in Hmk. apply andb_true_iff in Hmk as [Hmk Hmd]. apply andb_true_iff in Hmk as [Hmk Hmt].
+  apply andb_true_iff in Hmk as [Hml Hma]. apply Nat.eqb_eq in Hml.
+  assert (Hmasc : ascii_str mk = true).
+  { unfold ascii_str. rewrite forallb_forall in *. intros b0 Hb. specialize (Hma b0 Hb). unfold is_ascii. exact Hma. }
+  unfold format_tag, parse_tag. rewrite Hf, Hp. cbn [run_format app elem_val tv_elems tv_marker nth].
+  change (nn 8) with 8. change (nn 6) with 6. change (nn 4) with 4.
+  rewrite (parse_alpha_pad a 8 La), (parse_alpha_pad b 8 Lb), (parse_alpha_pad d 4 Ld), (parse_alpha_pad e 4 Le), (parse_alpha_pad f 4 Lf)
+    by (unfold small; cbn; lia).
+  rewrite (numeric_full c 6 Hlc).
+  set (A := pad 8 a). set (B := pad 8 b). set (D := pad 4 d). set (E := pad 4 e). set (F := pad 4 f).
+  assert (HAl : length A = 8) by (apply pad_length; exact La). assert (HBl : length B = 8) by (apply pad_length; exact Lb).
+  assert (HDl : length D = 4) by (apply pad_length; exact Ld). assert (HEl : length E = 4) by (apply pad_length; exact Le).
+  assert (HFl : length F = 4) by (apply pad_length; exact Lf).
+  exists (mk ++ A ++ B ++ c ++ D ++ E ++ F). split; [f_equal; rewrite <- !app_assoc; reflexivity|].
+  remember (mk ++ A ++ B ++ c ++ D ++ E ++ F) as rec eqn:Erec.
+  assert (Hlen : length rec = 40) by (rewrite Erec, !app_length, Hml, HAl, HBl, Hlc, HDl, HEl, HFl; reflexivity).
+  assert (Hasc : ascii_str rec = true).
+  { rewrite Erec, !ascii_app, Hmasc. unfold A, B, D, E, F.
+    rewrite (ascii_pad 8 a (okchars_ascii a Oa)), (ascii_pad 8 b (okchars_ascii b Ob)), (okchars_ascii c Hoc),
+            (ascii_pad 4 d (okchars_ascii d Od)), (ascii_pad 4 e (okchars_ascii e Oe)), (ascii_pad 4 f (okchars_ascii f Of)). reflexivity. }
+  assert (LB : forall w x, forallb okchar x = true -> lacks_byte lbrace (pad w x) = true) by (intros; apply okchars_pad_lacks_brace; assumption).
+  cbn [run_parse]. change (nn 14) with 14. change (nn 6) with 6. change (nn 8) with 8. change (nn 4) with 4.
+  rewrite (rune_count_ascii rec Hasc), Hlen. cbn [Nat.ltb Nat.leb].
+  assert (S1 : slice rec 0 6 = Some mk).
+  { rewrite Erec. pose proof (slice_mid [] mk (A ++ B ++ c ++ D ++ E ++ F)) as P. cbn [app length] in P. rewrite Hml in P. exact P. }
+  rewrite S1.
+  assert (T1 : slice_from rec 6 = Some (A ++ B ++ c ++ D ++ E ++ F)).
+  { rewrite Erec. pose proof (slice_from_app mk (A ++ B ++ c ++ D ++ E ++ F)) as P. rewrite Hml in P. exact P. }
+  rewrite T1. unfold A at 1.
+  rewrite (parse_fixed_pad 8 a (B ++ c ++ D ++ E ++ F) ltac:(lia) Hca)
+    by (rewrite !lacks_app; unfold B, D, E, F; rewrite !LB by assumption; rewrite (okchars_lack_brace c Hoc); reflexivity).
+  cbn [Nat.add].
+  assert (T2 : slice_from rec 14 = Some (B ++ c ++ D ++ E ++ F)).
+  { rewrite Erec. pose proof (slice_from_app (mk ++ A) (B ++ c ++ D ++ E ++ F)) as P. rewrite app_length, Hml, HAl, <- app_assoc in P. exact P. }
+  rewrite T2. unfold B at 1.
+  rewrite (parse_fixed_pad 8 b (c ++ D ++ E ++ F) ltac:(lia) Hcb)
+    by (rewrite !lacks_app; unfold D, E, F; rewrite !LB by assumption; rewrite (okchars_lack_brace c Hoc); reflexivity).
+  cbn [Nat.add Nat.ltb Nat.leb].
+  assert (S2 : slice rec 22 28 = Some c).
+  { rewrite Erec. pose proof (slice_mid (mk ++ A ++ B) c (D ++ E ++ F)) as P. rewrite !app_length, Hml, HAl, HBl, Hlc, <- !app_assoc in P. exact P. }
+  rewrite S2.
+  assert (T3 : slice_from rec 28 = Some (D ++ E ++ F)).
+  { rewrite Erec. pose proof (slice_from_app (mk ++ A ++ B ++ c) (D ++ E ++ F)) as P. rewrite !app_length, Hml, HAl, HBl, Hlc, <- !app_assoc in P. exact P. }
+  rewrite T3. unfold D at 1.
+  rewrite (parse_fixed_pad 4 d (E ++ F) ltac:(lia) Hcd) by (rewrite lacks_app; unfold E, F; rewrite !LB by assumption; reflexivity).
+  cbn [Nat.add].
+  assert (T4 : slice_from rec 32 = Some (E ++ F)).
+  { rewrite Erec. pose proof (slice_from_app (mk ++ A ++ B ++ c ++ D) (E ++ F)) as P. rewrite !app_length, Hml, HAl, HBl, Hlc, HDl, <- !app_assoc in P. exact P. }
+  rewrite T4. unfold E at 1.
+  rewrite (parse_fixed_pad 4 e F ltac:(lia) Hce) by (unfold F; apply LB; assumption).
+  cbn [Nat.add].
+  assert (T5 : slice_from rec 36 = Some F).
+  { rewrite Erec. pose proof (slice_from_app (mk ++ A ++ B ++ c ++ D ++ E) F) as P. rewrite !app_length, Hml, HAl, HBl, Hlc, HDl, HEl, <- !app_assoc in P. exact P. }
+  rewrite T5.
+  pose proof (parse_fixed_pad 4 f [] ltac:(lia) Hcf eq_refl) as PF. rewrite app_nil_r in PF. fold F in PF. rewrite PF.
+  cbn [Nat.add].
+  assert (Hv : verify_read_length rec 40 = true).
+  { pose proof (verify_read_length_exact rec) as P. rewrite Hlen in P. exact P. }
+  rewrite Hv. destruct (t_elems tag_OutputMessageAccountabilityData) as [|e1 [|e2 [|e3 [|e4 [|e5 [|e6 [|e7 r']]]]]]]; cbn in Hne; try lia. reflexivity.
+Qed.
